@@ -219,7 +219,7 @@ def gen_family(rng, force=(), forbid=(), n_masters=None, max_glyphs=14, p_sparse
             roster.append((base_names[0] + ".mixed.nest", [], "nested:" + base_names[0] + ".mixed"))
     if "notdef" in on:
         roster.append((".notdef", [], "notdef"))
-    if "dottedcircle" in on and rng.random() < 0.5:
+    if "dottedcircle" in on and rng.random() < 0.6:
         roster.append(("uni25CC", [0x25CC], "base"))
     # cap the number of glyphs, keeping referential integrity (drop from the end)
     while len(roster) > max_glyphs:
@@ -323,6 +323,40 @@ def gen_family(rng, force=(), forbid=(), n_masters=None, max_glyphs=14, p_sparse
             g["anchors"].append(["exit", 0, rng.choice([0, 120])])
         if role == "composite" and rng.random() < 0.2 and "marks" in on:
             g["anchors"].append(["top", _q(rng, w / 2, spec["frac"]), 800])
+    if "dottedcircle" in on and "marks" in on and rng.random() < 0.75:
+        # tie-prone input for the dotted-circle filter, the one place where ufo2ft
+        # averages over the font's glyphs: every glyph with a 'top' anchor gets the
+        # same bounding-box width and the anchors are placed so that the synthesized
+        # anchor lands exactly on a half unit (n * bw == 2 * dotted-circle advance,
+        # sum of the anchor offsets odd) - rounding then exposes any dependence of
+        # the average on the order in which the glyphs are visited
+        tops = [n for n in glyphs if n != "uni25CC" and any(a[0] == "top" for a in glyphs[n]["anchors"])]
+        n_t = len(tops)
+        dcw = int(upm * 0.5) + 160  # advance of the glyph the filter draws (xHeight + 2*160 - 2*80)
+        if 3 <= n_t <= 6 and not any(glyphs[n]["components"] for n in tops) and any(
+                a[0] == "_top" for g_ in glyphs.values() for a in g_["anchors"]):
+            if "uni25CC" in glyphs:
+                bw = rng.choice([240, 300, 360])
+                dcw = n_t * bw // 2
+                glyphs["uni25CC"]["width"] = dcw
+                glyphs["uni25CC"]["anchors"] = [a for a in glyphs["uni25CC"]["anchors"] if a[0] != "top"]
+            else:
+                # (the glyph the filter would draw has a non-integral advance: no exact tie)
+                bw = None
+            if bw:
+                offs = [rng.randint(int(bw * 0.2), int(bw * 0.8)) for _ in tops]
+                if sum(offs) % 2 == 0:
+                    offs[-1] += 1
+                for n, off in zip(tops, offs):
+                    g = glyphs[n]
+                    x0 = rng.choice([0, 10, 35, 60])
+                    hgt = rng.choice([300, 450, 520])
+                    g["contours"] = [[[x0, 0, "line", False], [x0 + bw, 0, "line", False],
+                                      [x0 + bw, hgt, "line", False], [x0, hgt, "line", False]]]
+                    for a in g["anchors"]:
+                        if a[0] == "top":
+                            a[1] = off
+                on.add("dc_tie")
     if "contextual_anchor" in on and "marks" in on:
         # a contextual mark anchor ('*top'): attaches only after a given glyph
         bases_ = [n for n, _, r in roster if r == "base" and any(a[0] == "top" for a in glyphs[n]["anchors"])]
@@ -701,6 +735,12 @@ def gen_family(rng, force=(), forbid=(), n_masters=None, max_glyphs=14, p_sparse
             data["com.github.fonttools.ttx/D_S_I_G_.ttx"] = (
                 '<?xml version="1.0" encoding="UTF-8"?>\n<ttFont>\n  <DSIG>\n'
                 '    <tableHeader flag="0x0" numSigs="0" version="1"/>\n  </DSIG>\n</ttFont>\n')
+            if rng.random() < 0.6:
+                # a second dump carrying the same table: the one merged last wins, so the
+                # order in which the data directory is walked becomes visible
+                data["com.github.fonttools.ttx/A_override.ttx"] = (
+                    '<?xml version="1.0" encoding="UTF-8"?>\n<ttFont>\n  <DSIG>\n'
+                    '    <tableHeader flag="0x1" numSigs="0" version="1"/>\n  </DSIG>\n</ttFont>\n')
         data["com.example/readme.txt"] = "not a ttx file"
 
     info = {
@@ -736,6 +776,10 @@ def gen_family(rng, force=(), forbid=(), n_masters=None, max_glyphs=14, p_sparse
     master0 = {"name": "master_0", "info": info, "glyphs": glyphs, "glyph_order": names,
                "kerning": kerning, "groups": groups, "features": features, "lib": lib,
                "layers": layers, "data": data}
+    # insertion order of the data files (a JSON object carries no order of its own)
+    master0["data_order"] = list(data)
+    if len(data) > 1 and rng.random() < 0.5:
+        rng.shuffle(master0["data_order"])
 
     # ------------------------------------------------------------- other masters
     axes = []
@@ -995,4 +1039,4 @@ def _perturb_master(rng, m0, k, on, spec):
     return {"name": "master_%d" % k, "info": info, "glyphs": glyphs,
             "glyph_order": list(m0["glyph_order"]) + [n for n in glyphs if n not in m0["glyphs"]],
             "kerning": kerning, "groups": _perturb_groups(rng, m0["groups"]), "features": features, "lib": lib,
-            "layers": layers, "data": _deep(m0["data"])}
+            "layers": layers, "data": _deep(m0["data"]), "data_order": list(m0.get("data_order", []))}
